@@ -25,6 +25,24 @@ pub static mut REG_PTR: *mut u8 = core::ptr::dangling_mut::<u8>();
 /// 1 = a storage with the (single) name exists, 2 = it does not
 pub static mut REG_STATE: u8 = 2;
 pub static mut DESTROY_COUNT: u32 = 100;
+
+fn kstorage_noop() {}
+/// Interleaving hook: the storage model calls it at the points where another process could act
+/// between two steps of the code under test.  HOOK_AT selects the point: 1 = while opening an
+/// existing storage (before the handle is returned), 2 = in `has_ownership()` (the connection
+/// builder calls it exactly once, right after it registered its port), 9 = never.
+pub static mut KSTORAGE_HOOK: fn() = kstorage_noop;
+pub static mut KSTORAGE_HOOK_AT: u8 = 9;
+pub static mut KSTORAGE_HOOK_FIRED: u8 = 2; // 1 = fired, 2 = not yet
+
+fn fire_hook(at: u8) {
+    unsafe {
+        if KSTORAGE_HOOK_AT == at && KSTORAGE_HOOK_FIRED == 2 {
+            KSTORAGE_HOOK_FIRED = 1;
+            (KSTORAGE_HOOK)();
+        }
+    }
+}
 pub static mut OWNERSHIP_ACQUIRED: u32 = 100;
 
 #[derive(Debug, Clone)]
@@ -131,6 +149,7 @@ impl<T: Send + Sync + Debug + ZeroCopySend + 'static> DynamicStorage<T> for KSto
         true
     }
     fn has_ownership(&self) -> bool {
+        fire_hook(2);
         self.has_ownership.get()
     }
     fn release_ownership(&self) {
@@ -180,11 +199,13 @@ impl<'builder, T: Send + Sync + Debug + ZeroCopySend + 'static> KBuilder<'builde
             if REG_STATE != 1 {
                 return Err(DynamicStorageOpenError::DoesNotExist);
             }
-            Ok(KStorage {
+            let handle = KStorage {
                 name: self.name,
                 ptr: REG_PTR as *mut MaybeUninit<T>,
                 has_ownership: core::cell::Cell::new(false),
-            })
+            };
+            fire_hook(1);
+            Ok(handle)
         }
     }
     fn create_impl(&mut self) -> Result<KStorage<T>, DynamicStorageCreateError> {
